@@ -16,6 +16,8 @@ type gen struct {
 	classic bool // restrict to the fragment the handler implements without a corpus
 	vids    []int
 	refVids []int
+	// refAttrs: attributes some claim gives an item reference as value (valueInSet is only meaningful there)
+	refAttrs []string
 }
 
 func newGen(rng *rand.Rand, wf *WorldFile, classic bool) *gen {
@@ -28,6 +30,13 @@ func newGen(rng *rand.Rand, wf *WorldFile, classic bool) *gen {
 		if it.Kind == "claim" && it.ValRef != 0 && !seen[it.ValRef] {
 			seen[it.ValRef] = true
 			g.refVids = append(g.refVids, RefVidBase+it.ValRef)
+		}
+	}
+	seenA := map[string]bool{}
+	for _, it := range wf.Items {
+		if it.Kind == "claim" && it.ValRef != 0 && !seenA[it.Attr] {
+			seenA[it.Attr] = true
+			g.refAttrs = append(g.refAttrs, it.Attr)
 		}
 	}
 	return g
@@ -52,7 +61,13 @@ func (g *gen) time() int {
 
 func (g *gen) query() Query {
 	g.tr = nil
-	switch g.pick(4) {
+	switch g.pick(5) {
+	case 4:
+		if len(g.refAttrs) == 0 || g.classic {
+			g.constraint(2+g.pick(3), false)
+			break
+		}
+		g.inSetFamily()
 	case 0:
 		// and(permanode-ish, X) / and(X, permanode-ish): the shapes the planner restricts sources for
 		i := g.alloc()
@@ -79,6 +94,44 @@ func (g *gen) query() Query {
 		q.Limit = 1 + g.pick(5)
 	}
 	return q
+}
+
+// inSetFamily: several valueInSet sub-queries in one tree over the same reference attribute, side by side under a
+// logical operator or nested in each other, so that one referenced blob is judged by different sub-queries within
+// one search.
+func (g *gen) inSetFamily() {
+	attr := g.refAttrs[g.pick(len(g.refAttrs))]
+	inset := func(sub func() int) int {
+		i := g.alloc()
+		n := Node{K: "pn", S: attr}
+		n.A = sub()
+		if g.chance(4) {
+			n.All = true
+		}
+		g.tr[i-1] = n
+		return i
+	}
+	leaf := func() int { return g.constraint(g.pick(2), false) }
+	if g.chance(3) {
+		// nested: attr in { attr in { sub } }, beside attr in { sub' }
+		i := g.alloc()
+		n := Node{K: []string{"and", "or", "xor"}[g.pick(3)]}
+		n.A = inset(func() int { return inset(leaf) })
+		n.B = inset(leaf)
+		g.tr[i-1] = n
+		return
+	}
+	i := g.alloc()
+	n := Node{K: []string{"and", "and", "or", "xor"}[g.pick(4)]}
+	n.A = inset(leaf)
+	if g.chance(3) {
+		j := g.alloc()
+		n.B = j
+		g.tr[j-1] = Node{K: "not", A: inset(leaf)}
+	} else {
+		n.B = inset(leaf)
+	}
+	g.tr[i-1] = n
 }
 
 // pnish generates a constraint that onlyMatchesPermanode accepts.
